@@ -48,25 +48,41 @@ func (a *AggregatePlan) listAggrFuncs(expr Expression) ([]*FunctionCallExpr, []s
 		retExprs []*FunctionCallExpr
 		retNames []string
 	)
-
-	switch e := expr.(type) {
-	case *BinaryOpExpr:
-		if fcexpr, names := a.listAggrFuncs(e.Left); len(fcexpr) > 0 {
-			retExprs = append(retExprs, fcexpr...)
-			retNames = append(retNames, names...)
-		}
-		if fcexpr, names := a.listAggrFuncs(e.Right); len(fcexpr) > 0 {
-			retExprs = append(retExprs, fcexpr...)
-			retNames = append(retNames, names...)
-		}
-	case *FunctionCallExpr:
-		fname, err := GetFuncNameFromExpr(expr)
-		if err == nil && IsAggrFunc(fname) {
-			retExprs = append(retExprs, e)
-			retNames = append(retNames, fname)
-		}
-	}
+	walkAggrFuncs(expr, func(e *FunctionCallExpr, fname string) bool {
+		retExprs = append(retExprs, e)
+		retNames = append(retNames, fname)
+		return true
+	})
 	return retExprs, retNames
+}
+
+// walkAggrFuncs calls cb for the aggregate function calls of expr wherever
+// they stand: operands, arguments of scalar functions (str(count(1))), list
+// items, behind `!` and behind the name of another field. It does not look
+// inside the arguments of an aggregate function. cb returns false to stop.
+func walkAggrFuncs(expr Expression, cb func(e *FunctionCallExpr, fname string) bool) {
+	stop := false
+	// A named field is visited once however often its name is used
+	seen := make(map[Expression]struct{})
+	expr.Walk(func(e Expression) bool {
+		if stop {
+			return false
+		}
+		switch ve := e.(type) {
+		case *FieldReferenceExpr:
+			if _, have := seen[ve.FieldExpr]; have {
+				return false
+			}
+			seen[ve.FieldExpr] = struct{}{}
+		case *FunctionCallExpr:
+			fname, err := GetFuncNameFromExpr(ve)
+			if err == nil && IsAggrFunc(fname) {
+				stop = !cb(ve, fname)
+				return false
+			}
+		}
+		return true
+	})
 }
 
 func (a *AggregatePlan) listAggrFunctions(expr Expression) ([]*FunctionCallExpr, []AggrFunction, bool, error) {
@@ -106,17 +122,17 @@ func (a *AggregatePlan) Init() error {
 			isKey     bool           = true
 			fexprs    []*FunctionCallExpr
 		)
-		switch e := f.(type) {
-		case *FunctionCallExpr, *BinaryOpExpr:
-			isKey = false
-			fexprs, aggrFuncs, found, err = a.listAggrFunctions(e)
-			if err != nil {
-				return err
+		fexprs, aggrFuncs, found, err = a.listAggrFunctions(f)
+		if err != nil {
+			return err
+		}
+		isKey = !found
+		if isKey {
+			switch f.(type) {
+			case *FunctionCallExpr, *BinaryOpExpr:
+			default:
+				a.aggrKeyFields = append(a.aggrKeyFields, f)
 			}
-			isKey = !found
-		default:
-			isKey = true
-			a.aggrKeyFields = append(a.aggrKeyFields, f)
 		}
 		a.aggrFields = append(a.aggrFields, &AggrPlanField{
 			ID:        i,
